@@ -149,7 +149,7 @@ def check_property(prop, tier, seed, jobs, verbose):
     from pyvc import runner
 
     thorough = tier == "thorough"
-    timeout_ms = 15000 if not thorough else 120000
+    timeout_ms = 20000 if not thorough else 120000
     repo = Repo()
     checker_errors = list(repo.errors)
 
@@ -398,6 +398,10 @@ def check_property(prop, tier, seed, jobs, verbose):
         if res.get("status") != "no-generator":
             bounded_recs.append({"name": f"native run of {kk[0]} against its contract", "cases": res.get("cases", 0),
                                  "bound": "generator scope in contracts/gens.py", "status": res.get("status")})
+
+    for t_, n_, b_, st_ in sorted(slow, reverse=True)[:3]:
+        if t_ > 5.0 and st_ == "proved":
+            print(f"NOTE: slow obligation ({t_}s, {b_}): {n_} - obligations that need seconds are the unstable ones")
 
     # ---- thorough tier: detection self-test (informational, never changes the verdict) ----------------------
     self_test = []
